@@ -74,7 +74,15 @@ func (f *Frame) run(args []T, st State, path T) (results []T, outSt State, outPa
 							rs = append(rs, f.val(r))
 						}
 					}
-					f.rets = append(f.rets, retRec{path: ep, st: f.outSt[p], results: rs, pos: ret.Pos()})
+					var vs []ssa.Value
+					for _, r := range ret.Results {
+						if phi, isPhi := r.(*ssa.Phi); isPhi && phi.Block() == b {
+							vs = append(vs, phi.Edges[i])
+						} else {
+							vs = append(vs, r)
+						}
+					}
+					f.rets = append(f.rets, retRec{path: ep, st: f.outSt[p], results: rs, pos: ret.Pos(), vals: vs})
 				}
 				continue
 			}
@@ -82,7 +90,7 @@ func (f *Frame) run(args []T, st State, path T) (results []T, outSt State, outPa
 			for _, r := range ret.Results {
 				rs = append(rs, f.val(r))
 			}
-			f.rets = append(f.rets, retRec{path: f.curPath(), st: f.st, results: rs, pos: ret.Pos()})
+			f.rets = append(f.rets, retRec{path: f.curPath(), st: f.st, results: rs, pos: ret.Pos(), vals: ret.Results})
 			continue
 		}
 		if _, isPanic := last.(*ssa.Panic); isPanic {
@@ -246,6 +254,16 @@ func (p *Program) verifyFunction(name string) (enc *Enc, err error) {
 				tr := &Translator{f: f, env: renv, cur: r.st, old: f.entrySt, allocOld: alloc0}
 				c := tr.boolExpr(e.Expr)
 				sg := SubGoal{Path: r.path, Cond: c}
+				// slice results assembled along several control-flow paths (phi / append chains): one sub-goal per
+				// path, plus one showing that the paths cover the return (so the split is sound by construction)
+				for _, v := range r.vals {
+					if _, isSl := v.Type().Underlying().(*types.Slice); isSl {
+						if sp := f.splitPaths(v, 0); len(sp) > 1 && len(sp) <= 24 {
+							sg.Splits = sp
+							break
+						}
+					}
+				}
 				sg.Extra = append(sg.Extra, enc.extras...)
 				for _, u := range con.Uses {
 					func() {
@@ -262,6 +280,19 @@ func (p *Program) verifyFunction(name string) (enc *Enc, err error) {
 				o.Subs = append(o.Subs, sg)
 			}
 			enc.obls = append(enc.obls, o)
+		}
+		if _, ok := con.Checks["lock"]; ok {
+			// every mutex acquired by the function is released on every return path (and none it did not hold is released)
+			if hs, ok := enc.stateSort["held"]; ok {
+				entryHeld := stLookup(enc, f.entrySt, "held")
+				o := &Obl{Name: "lock:released-at-return", Class: "lock", Func: name, Path: outPath, Cond: True, Pos: p.pos(fn.Pos())}
+				for _, r := range f.rets {
+					now := stLookup(enc, r.st, "held")
+					_ = hs
+					o.Subs = append(o.Subs, SubGoal{Path: r.path, Cond: Eq(now, entryHeld)})
+				}
+				enc.obls = append(enc.obls, o)
+			}
 		}
 		enc.obls = append(enc.obls, &Obl{Name: "cover:exit", Class: "cover", Func: name, Path: outPath, Cond: True, Cover: true, Pos: p.pos(fn.Pos())})
 	}
@@ -309,6 +340,47 @@ func (p *Program) verifyLemma(name string) (enc *Enc, err error) {
 	body := tr.boolExpr(lm.Body)
 	enc.obls = append(enc.obls, &Obl{Name: "lemma:" + name, Class: "lemma", Func: "lemma " + name, Path: True, Cond: body, Pos: fmt.Sprintf("contracts:%d", lm.Line)})
 	return enc, nil
+}
+
+// splitPaths: the alternative control-flow histories through which slice value v was assembled (non-loop phis,
+// followed through the accumulator argument of append). Each alternative is a conjunction of edge predicates.
+func (f *Frame) splitPaths(v ssa.Value, depth int) [][]T {
+	if depth > 4 {
+		return [][]T{nil}
+	}
+	switch x := v.(type) {
+	case *ssa.Phi:
+		if f.loops[x.Block()] != nil {
+			return [][]T{nil}
+		}
+		var out [][]T
+		for i, p := range x.Block().Preds {
+			ep, ok := f.edgePred[[2]int{p.Index, x.Block().Index}]
+			if !ok {
+				continue
+			}
+			for _, sub := range f.splitPaths(x.Edges[i], depth+1) {
+				out = append(out, append([]T{ep}, sub...))
+			}
+		}
+		if len(out) == 0 {
+			return [][]T{nil}
+		}
+		return out
+	case *ssa.Call:
+		if b, ok := x.Call.Value.(*ssa.Builtin); ok && b.Name() == "append" {
+			return f.splitPaths(x.Call.Args[0], depth+1)
+		}
+		// a call that extends a slice of the same type passed to it (e.g. addError(…, ea, err) []error)
+		if _, isFn := x.Call.Value.(*ssa.Function); isFn {
+			for _, a := range x.Call.Args {
+				if types.Identical(a.Type(), x.Type()) {
+					return f.splitPaths(a, depth+1)
+				}
+			}
+		}
+	}
+	return [][]T{nil}
 }
 
 // trivialReturnBlock: only phis / debug references before the return.
